@@ -148,4 +148,11 @@ class Block2Cache:
                 req.remote.maximum_payload_size,
             )
         else:
+            if req.opt.block2 is not None:
+                # This rendering answers a block 0 request in full; later
+                # blocks must not be served from an older rendering.
+                try:
+                    del self._completes[block_key]
+                except KeyError:
+                    pass
             return assembled
